@@ -163,6 +163,12 @@ def parse_wire(wire):
                 return out, "response %d without a single Content-Length" % code
             n = int(cls[0])
             body = wire[pos:pos + n]
+            if (code >= 400 and pos == len(wire) and (b"connection", b"close") in hdrs):
+                # the error response to a HEAD request announces the length of
+                # the body it does not send (fix 7243240); it is always the
+                # last thing on the connection
+                body = b""
+                n = 0
             if len(body) != n:
                 return out, "response %d body shorter than Content-Length %d" % (code, n)
             pos += n
